@@ -324,6 +324,12 @@ func genCase(rng *rand.Rand) Case {
 		c.Era = "future"
 		c.TimeNanos = (int64(3_480_000_000)+rng.Int64N(400_000_000))*1e9 + c.TimeNanos%1e9 // 2080-04 .. 2092
 	}
+	if c.Era != "" && rng.IntN(4) == 0 {
+		// the signing time is exactly the first / the last instant of the
+		// certificates' validity (bounds are inclusive)
+		bounds := map[string][2]int64{"past": {1009843200, 1262304000}, "future": {3471292800, 3913142400}}[c.Era]
+		c.TimeNanos = bounds[rng.IntN(2)] * 1e9
+	}
 	if rng.IntN(2) == 0 {
 		c.Agent = []string{"notation/1.0", "agent with spaces", "ü/2", "a", "agent\twith a tab", "agent read from a file\n", "no\u00a0break", "bell\a"}[rng.IntN(8)]
 	}
@@ -416,6 +422,8 @@ func execute(r *core.Run, c *Case) {
 	var remote *sims.RemoteSigner
 	if c.Remote {
 		remote = sims.NewRemote(ch)
+		// every third external signer wipes the buffer it was handed
+		remote.WipeInput = (len(c.Payload)+c.ChainLen)%3 == 0
 		signer = remote
 	} else {
 		s, err := sims.NewLocal(ch)
